@@ -269,13 +269,22 @@ def ops : List (String × Op) := [
         let off := match chromRel, c.par with | false, .chunk cs _ => cs | _, _ => 0
         let lines := if text.isEmpty then [] else
           (let ls := splitOnChar '\n' text; if ls.getLast? = some [] then ls.dropLast else ls)
-        pure (failList (checkLines c off lines)))
+        -- with colliding GUIDs (hypothesis of the unique-ID clause violated by the INPUT) the Parent→ID linkage
+        -- is ambiguous: only the per-line and ordering clauses are claimed
+        let cl := checkLines c off lines
+        pure (failList (if nodup (allGuids c) then cl else cl.filter (· ≠ "decode(rows)=source"))))
   , ("coll", do
-      let all ← get
+      let _seed ← tok; let _profile ← tok; let fasta ← pBool; let mode ← tok; let par ← tok
+      pArrow
+      let ans ← get
       set ([] : List String)
-      match all.dropWhile (· ≠ "=>") with
-      | ["=>", "ok", "clean"] => pure "pass"
-      | "=>" :: "ok" :: "viol" :: cl => pure ("fail " ++ " ".intercalate cl)
+      -- documented refusals of collection_to_gff3 / to_gff
+      let refuse := (fasta && mode = "chrom" && par = "K") || (mode = "chunk" && par ≠ "K") || (fasta && par = "N")
+      match ans with
+      | ["ok", "clean"] => pure (if refuse then "fail export-not-refused" else "pass")
+      | ["ok", "clean", _] => pure (if refuse then "fail export-not-refused" else "n/a")
+      | "ok" :: "viol" :: cl => pure ("fail " ++ " ".intercalate cl)
+      | "err" :: _ => pure (if refuse then "pass" else "fail raised")
       | other => pure ("fail " ++ " ".intercalate other))
 ]
 end BioCantor.Driver.SpecGff
